@@ -81,10 +81,14 @@ func (d *DefaultMetricLogWriter) Write(ts uint64, items []*base.MetricItem) erro
 				return errors.Wrap(err, "failed to roll the metric log")
 			}
 		}
-		pos, err := util.FilePosition(d.curMetricFile)
-		if err != nil {
-			return errors.Wrap(err, "cannot get current pos of the metric file")
-		}
+	}
+	pos, err := util.FilePosition(d.curMetricFile)
+	if err != nil {
+		return errors.Wrap(err, "cannot get current pos of the metric file")
+	}
+	// A new second needs an index entry, and so does the first line of a fresh file
+	// (the second the writer was created in, or a second that continues after a size roll).
+	if timeSec > d.latestOpSec || pos == 0 {
 		if err = d.writeIndex(timeSec, pos); err != nil {
 			return errors.Wrap(err, "cannot write metric idx file")
 		}
